@@ -38,15 +38,18 @@ def compose(S, lo, hi):
 
 
 class Describer:
-    def __init__(self, facts, body, rets=None, ctx=None):
+    def __init__(self, facts, body, rets=None, ctx=None, ret_slices=None):
         self.f = facts
         self.b = body
+        self.ret_slices = ret_slices   # callable (fn id, field path) -> slice descriptor a local fn returns (callee terms)
         self.fn = body.fn
         self.ev = FnEval(facts, body, ctx)   # ctx: success-implies-length summaries (length guards made by helpers)
         self.rets = rets   # callable fn_id -> ret descriptor (in callee terms) or None
 
     # ---- slices ----
     def slice_of(self, op, depth=0):
+        if op is None:
+            return None
         if depth > 14 or op[0] not in ("cp", "mv"):
             if op[0] == "kc":
                 return ("l", "const")
@@ -79,7 +82,14 @@ class Describer:
             if rv[0] == "use":
                 o = rv[1]
                 if o[0] in ("cp", "mv") and len(o[1]) == 2 and isinstance(o[1][1], list) and o[1][1][0] == "f":
-                    return self.tuple_field_slice(o[1][0], o[1][1][1], depth + 1)
+                    r = self.tuple_field_slice(o[1][0], o[1][1][1], depth + 1)
+                    if r is not None:
+                        return r
+                if o[0] in ("cp", "mv") and len(o[1]) >= 2:
+                    r = self.call_result_slice(o[1], depth + 1)
+                    if r is not None:
+                        return r
+                    return None
                 return self.slice_of(o, depth + 1)
             if rv[0] == "cast":
                 return self.slice_of(rv[2], depth + 1)
@@ -106,11 +116,17 @@ class Describer:
                     pr = self.param_relative_range(args[1])
                     if pr is not None:
                         return ("subp", base, pr[0], pr[1], pr[2])
+                    sv = self.symbolic_start(args[1], lo)
+                    if sv is not None:
+                        return ("subv", base, sv)
                     return ("sub", base, lo, hi)
                 return compose(base, lo, hi)
             if kind == "from":
                 lo = ex(a)
                 if lo is None:
+                    sv = self.symbolic_start(args[1], None)
+                    if sv is not None:
+                        return ("subv", base, sv)
                     return ("sub", base, None, None)
                 # close the range when the length of the base is known exactly at this point
                 L = self.ev.at_block(d[0]).slice_len(args[0], d[0])
@@ -120,6 +136,8 @@ class Describer:
             if kind in ("to", "toinc"):
                 hi = ex(c)
                 if hi is None:
+                    return ("subv", base, ("k", 0))      # a prefix of unknown length: elements keep their index
+                if False:
                     return ("sub", base, 0, None)
                 return compose(base, 0, hi + (1 if kind == "toinc" else 0))
         if name.endswith("::as_ref") or "Deref>::deref" in name or name.endswith("try_from") \
@@ -129,6 +147,18 @@ class Describer:
             s = self.slice_of(args[0], depth + 1)
             return ("bswap", s) if s else None
         return None
+
+    def symbolic_start(self, rop, lo):
+        """value descriptor of the start of a range operand whose bounds are not constants (`s[rlen..]`, `s[a..b]`)"""
+        if lo is not None:
+            return ("k", lo)
+        ro = self.ev.range_operands(rop)
+        if ro is None or ro[1] is None:
+            return None
+        D = self.value_of(ro[1])
+        if D is None or D == ("v",):
+            return None
+        return D
 
     def param_offset(self, op):
         """(j, c) when the integer operand is `by-value parameter j + c` (c >= 0)."""
@@ -152,6 +182,102 @@ class Describer:
             return None
         return a[0], a[1], c[1]
 
+    def call_result_slice(self, pl, depth):
+        """slice held in a component of a local function's result: `(split(sig) as Some).0.1`, `split(sig).0` ..."""
+        if self.ret_slices is None:
+            return None
+        root = pl[0]
+        path = []
+        for e in pl[1:]:
+            if e == "*":
+                continue
+            if e[0] == "d":
+                path.append(("v", e[1]))
+            elif e[0] == "f":
+                path.append(("f", e[1]))
+            else:
+                return None
+        # the root may itself be a copy of / a field of the call result
+        for _ in range(6):
+            d = self.b.single_def(root)
+            if not d:
+                return None
+            if d[2] == "call":
+                break
+            if d[2] == "A" and d[3][2][0] == "use" and d[3][2][1][0] in ("cp", "mv"):
+                src = d[3][2][1][1]
+                pre = []
+                for e in src[1:]:
+                    if e == "*":
+                        continue
+                    if e[0] == "d":
+                        pre.append(("v", e[1]))
+                    elif e[0] == "f":
+                        pre.append(("f", e[1]))
+                    else:
+                        return None
+                path = pre + path
+                root = src[0]
+                continue
+            return None
+        else:
+            return None
+        t = d[3]
+        if not t[1].get("l"):
+            return None
+        S = self.ret_slices(t[1]["id"], tuple(path))
+        if S is None:
+            return None
+        return self.subst_slice(S, t[2], depth)
+
+    def returned_slice(self, path):
+        """descriptor (own parameter terms) of the slice this function returns at `path` of its result, when every
+        returning assignment agrees: path elements ('v', variant) / ('f', field)."""
+        found = None
+        for d in self.b.defs().get(0, []):
+            if d[2] != "A":
+                continue
+            rv = d[3][2]
+            cur = ("rv", rv)
+            ok = True
+            p = list(path)
+            # Option::None etc.: a variant other than the requested one contributes nothing
+            if rv[0] == "agg" and rv[1].get("k") == "adt" and p and p[0][0] == "v":
+                if rv[1].get("variant") != p[0][1]:
+                    continue
+                p = p[1:]
+                if not p or p[0] != ("f", 0) or not rv[2]:
+                    continue
+                p = p[1:]
+                op = rv[2][0]
+            elif rv[0] == "use":
+                op = rv[1]
+            else:
+                continue
+            S = self._slice_at(op, p, 0)
+            if S is None:
+                return None
+            if found is not None and found != S:
+                return None
+            found = S
+        return found
+
+    def _slice_at(self, op, p, depth):
+        if depth > 8 or op[0] not in ("cp", "mv"):
+            return None
+        if not p:
+            return self.slice_of(op, depth + 1)
+        if len(op[1]) != 1:
+            return None
+        l = op[1][0]
+        if p[0][0] == "f":
+            d = self.b.single_def(l)
+            if d and d[2] == "A" and d[3][2][0] == "agg" and p[0][1] < len(d[3][2][2]):
+                return self._slice_at(d[3][2][2][p[0][1]], p[1:], depth + 1)
+            if len(p) == 1:
+                return self.tuple_field_slice(l, p[0][1], depth + 1)
+        return None
+
     def tuple_field_slice(self, l, fld, depth):
         d = self.b.single_def(l)
         if d and d[2] == "A" and d[3][2][0] == "agg" and fld < len(d[3][2][2]):
@@ -161,6 +287,11 @@ class Describer:
         if d and d[2] == "call" and (d[3][1]["f"].endswith("::split_at") or d[3][1]["f"].endswith("::split_at_mut")):
             base = self.slice_of(d[3][2][0], depth + 1)
             mid = self.ev.op_ival(d[3][2][1])
+            if base is not None and not (mid is not None and mid[0] == mid[1]):
+                if fld == 0:
+                    return ("subv", base, ("k", 0))
+                D = self.value_of(d[3][2][1], depth + 1)
+                return ("subv", base, D) if D is not None and D != ("v",) else None
             if base is not None and mid is not None and mid[0] == mid[1]:
                 k = int(mid[0])
                 if fld == 0:
@@ -191,6 +322,8 @@ class Describer:
 
     # ---- values ----
     def value_of(self, op, depth=0):
+        if op is None:
+            return None
         c = const_int(op)
         if c is not None:
             return ("k", c)
@@ -212,6 +345,12 @@ class Describer:
             s = self.local_slice(pl[0], depth + 1)
             idx = self.value_of(["cp", [pl[1][1]]], depth + 1) or ("v",)
             return norm_elem(s, idx)
+        if len(pl) == 2 and pl[1] == "*" and pl[0] != 0 and pl[0] <= fn["argc"]:
+            # `*p` of a `&u8` / `&u32` parameter (closure items `|&b| ..`): the value the parameter stands for
+            td = self.f.ty(fn["locals"][pl[0]][0])
+            if td.get("k") in ("ref", "ptr") and self.f.ty(td["to"]).get("k") in ("uint", "int", "bool"):
+                return ("pv", pl[0])
+            return None
         if len(pl) != 1:
             return None
         l = pl[0]
@@ -220,6 +359,9 @@ class Describer:
             if td.get("k") in ("uint", "int", "bool"):
                 return ("pv", l)
             return None
+        it = self.iterated_slice(l, depth + 1)
+        if it is not None:
+            return it
         iv = self.ev.ival(l)
         if iv is not None and iv[0] == iv[1] and iv[0] != INF:
             return ("k", int(iv[0]))
@@ -268,6 +410,37 @@ class Describer:
                 return self.subst_value(rd, args, depth + 1)
         return None
 
+    def iterated_slice(self, l, depth=0):
+        """for a local that is an iterator over a slice (`s.iter()`, possibly `.rev()` / by reference): the generic item
+        `s[i]`; used when a closure handed to all / any / for_each / position is re-expressed at the call site"""
+        if depth > 10:
+            return None
+        ts = self.f.ty(self.fn["locals"][l][0])
+        if ts.get("k") in ("ref", "ptr"):
+            ts = self.f.ty(ts["to"])
+        s_ = ts.get("s", "")
+        if not ("slice::Iter" in s_ or "slice::iter::Iter" in s_ or "iter::Rev<" in s_ or "Copied<" in s_ or "Cloned<" in s_):
+            return None
+        d = self.b.single_def(l)
+        if not d:
+            return None
+        if d[2] == "A":
+            rv = d[3][2]
+            if rv[0] in ("ref", "rawptr") and len(rv[2]) == 1:
+                return self.iterated_slice(rv[2][0], depth + 1)
+            if rv[0] == "use" and rv[1][0] in ("cp", "mv") and len(rv[1][1]) == 1:
+                return self.iterated_slice(rv[1][1][0], depth + 1)
+            return None
+        nm = d[3][1]["f"]
+        args = d[3][2]
+        last = nm.rsplit("::", 1)[-1]
+        if last in ("iter", "iter_mut") and args:
+            S = self.slice_of(args[0], depth + 1)
+            return norm_elem(S, ("i",)) if S is not None else None
+        if last in ("into_iter", "rev", "copied", "cloned", "by_ref") and args and args[0][0] in ("cp", "mv") and len(args[0][1]) == 1:
+            return self.iterated_slice(args[0][1][0], depth + 1)
+        return None
+
     # ---- substitution of a callee-relative descriptor into this function's terms ----
     def subst_slice(self, S, args, depth=0):
         if S is None:
@@ -288,6 +461,10 @@ class Describer:
         if S[0] == "sub":
             s = self.subst_slice(S[1], args, depth)
             return ("sub", s, S[2], S[3]) if s else None
+        if S[0] == "subv":
+            s = self.subst_slice(S[1], args, depth)
+            D = self.subst_value(S[2], args, depth)
+            return ("subv", s, D) if s is not None and D is not None else None
         if S[0] == "subp":
             s = self.subst_slice(S[1], args, depth)
             j = S[2] - 1
@@ -330,7 +507,7 @@ class Describer:
             for x in D[2]:
                 if x is None:
                     na.append(None)
-                elif x[0] in ("p", "l", "bswap", "sub", "subp"):
+                elif x[0] in ("p", "l", "bswap", "sub", "subp", "subv"):
                     na.append(self.subst_slice(x, args, depth))
                 else:
                     na.append(self.subst_value(x, args, depth))
@@ -341,6 +518,15 @@ class Describer:
 def norm_elem(s, idx):
     if s is None:
         return None
+    if s[0] == "subv":
+        # element i of `base[start..]` is element start + i of base
+        if s[2] == ("k", 0):
+            return norm_elem(s[1], idx)
+        if idx == ("k", 0):
+            return norm_elem(s[1], s[2])
+        if s[2][0] == "k" and idx[0] == "k":
+            return norm_elem(s[1], ("k", s[2][1] + idx[1]))
+        return norm_elem(s[1], ("bin", "Add", s[2], idx))
     if s[0] == "p" and idx[0] == "k":
         return ("elem", ("p", s[1], 0, None), ("k", s[2] + idx[1]))
     return ("elem", s, idx)
@@ -351,7 +537,7 @@ def param_rooted(S):
         return False
     if S[0] == "p":
         return True
-    if S[0] in ("bswap", "sub", "subp"):
+    if S[0] in ("bswap", "sub", "subp", "subv"):
         return param_rooted(S[1])
     return False
 
@@ -388,6 +574,8 @@ def render_slice(S, fn):
         return "bswap(%s)" % render_slice(S[1], fn)
     if S[0] == "sub":
         return "%s[%s..%s]" % (render_slice(S[1], fn), "?" if S[2] is None else S[2], "?" if S[3] is None else S[3])
+    if S[0] == "subv":
+        return "%s[%s..]" % (render_slice(S[1], fn), render_value(S[2], fn))
     if S[0] == "subp":
         n = fn["locals"][S[2]][1] or "_%d" % S[2]
         return "%s[%s+%d..%s+%d]" % (render_slice(S[1], fn), n, S[3], n, S[4])
@@ -420,6 +608,6 @@ def render_value(D, fn):
 def render_arg(x, fn):
     if x is None:
         return "?"
-    if x[0] in ("p", "l", "bswap", "sub", "subp"):
+    if x[0] in ("p", "l", "bswap", "sub", "subp", "subv"):
         return render_slice(x, fn)
     return render_value(x, fn)
